@@ -22,4 +22,7 @@ def run(tier):
         wave2_nio.errno_not_stale_rule(run, f, "C16-ERRNO-FRESH")
         wave2_nio.no_raw_array_rule(run, f, "C16-NO-RAW-ARRAY")
         wave2_nio.index_advances_rule(run, f, "C16-INDEX-ADVANCES")
+    # clauses added for the wave-2 seeds (rules/wave2.py; DESIGN 12a)
+    for _cfg, f in fx.items():
+        wave2_nio.no_reissue_while_head_wrong_rule(run, f, "C16-HEAD-UNUSED-AFTER-SUCCESS")
     return run.finish()
